@@ -79,8 +79,27 @@ type c20Flow struct {
 }
 
 type c20Transport struct {
-	id uint64
-	w  *c20World
+	id     uint64
+	w      *c20World
+	shared bool // one of the long-lived http.Clients handed to many discharge clients: serves the current case's world
+}
+
+// Applications hand one http.Client to many discharge clients (one per user). c20Shared are such long-lived clients; the
+// library must never write a credential-carrying transport into them, whatever the option order. c20Cur is the world of
+// the case being run.
+var (
+	c20Shared = map[uint64]*http.Client{}
+	c20Cur    *c20World
+)
+
+func c20HTTP(id uint64, w *c20World, shared bool) *http.Client {
+	if !shared {
+		return &http.Client{Transport: &c20Transport{id: id, w: w}}
+	}
+	if c20Shared[id] == nil {
+		c20Shared[id] = &http.Client{Transport: &c20Transport{id: id, shared: true}}
+	}
+	return c20Shared[id]
 }
 
 func jsonResp(req *http.Request, status int, v any) *http.Response {
@@ -90,6 +109,9 @@ func jsonResp(req *http.Request, status int, v any) *http.Response {
 
 func (t *c20Transport) RoundTrip(r *http.Request) (*http.Response, error) {
 	w := t.w
+	if t.shared {
+		w = c20Cur
+	}
 	w.mu.Lock()
 	defer w.mu.Unlock()
 	auth, has := r.Header["Authorization"]
@@ -220,6 +242,8 @@ func genC20(c *ctx) {
 			}
 		}
 		w := &c20World{keys: map[string]macaroon.EncryptionKey{}, script: map[string]*c20Reply{}, flows: map[string]*c20Flow{}}
+		c20Cur = w
+		sharedHTTP := r.Bool()
 		var mkReply func(depth int) *c20Reply
 		mkReply = func(depth int) *c20Reply {
 			switch k := r.Intn(8); {
@@ -281,7 +305,7 @@ func genC20(c *ctx) {
 			switch r.Intn(6) {
 			case 0, 1:
 				id := uint64(1 + r.Intn(3))
-				opts = append(opts, tp.WithHTTP(&http.Client{Transport: &c20Transport{id, w}}))
+				opts = append(opts, tp.WithHTTP(c20HTTP(id, w, sharedHTTP)))
 				optsCoq = append(optsCoq, coqw.App("WithHTTP", coqw.N(id)))
 				optsDesc = append(optsDesc, fmt.Sprintf("WithHTTP(#%d)", id))
 			case 2, 3:
@@ -325,7 +349,7 @@ func genC20(c *ctx) {
 		// the harness must see every request: if no WithHTTP was given the library default transport would be used;
 		// so always end with (or start with) a capturing client — position chosen at random
 		id := uint64(1 + r.Intn(3))
-		capOpt := tp.WithHTTP(&http.Client{Transport: &c20Transport{id, w}})
+		capOpt := tp.WithHTTP(c20HTTP(id, w, sharedHTTP))
 		// fast polling
 		fast := tp.WithPollingBackoff(func(time.Duration) time.Duration { return time.Millisecond })
 		pos := r.Intn(len(opts) + 1)
@@ -337,6 +361,16 @@ func genC20(c *ctx) {
 		// a WithHTTP placed before the capturing one may be the library default? no: every WithHTTP here captures.
 		// but if the first option is WithAuthentication the wrapper is built around cleanhttp's transport and later re-based by WithHTTP.
 		client := tp.NewClient(c20FirstParty, opts...)
+		// the http.Clients handed to WithHTTP belong to the caller (and to every other discharge client he gave them to)
+		aliasFail := ""
+		for id, hc := range c20Shared {
+			if _, own := hc.Transport.(*c20Transport); !own {
+				if aliasFail == "" {
+					aliasFail = fmt.Sprintf("NewClient replaced the Transport of the caller's http.Client #%d by %T: every request made through that client by anyone (other users' discharge clients, the application itself) now carries this client's credentials", id, hc.Transport)
+				}
+				hc.Transport = &c20Transport{id: id, shared: true}
+			}
+		}
 		ctx2, cancel := context.WithTimeout(context.Background(), 5*time.Second)
 		out, ferr := client.FetchDischargeTokens(ctx2, hdr)
 		cancel()
@@ -360,12 +394,14 @@ func genC20(c *ctx) {
 		if outBody == "" {
 			outToks = nil
 		}
-		oracle := ""
-		if outScheme != scheme {
+		oracle := aliasFail
+		if outScheme != scheme && oracle == "" {
 			oracle = fmt.Sprintf("scheme prefix not kept: input had scheme=%v, output %q", scheme, out)
 		}
 		if len(outToks) < len(hdrToks) {
-			oracle = "caller's tokens missing from the result"
+			if oracle == "" {
+				oracle = "caller's tokens missing from the result"
+			}
 		} else {
 			for k := range hdrToks {
 				if outToks[k] != hdrToks[k] && oracle == "" {
@@ -379,7 +415,7 @@ func genC20(c *ctx) {
 		}
 		st.Add(&cs.Case{
 			Coq:        coqw.App("KFetch", coqw.List(optsCoq), coqw.List(tpsCoq), coqw.List(reqCoq), coqw.Nat(ndis)),
-			Desc:       map[string]any{"op": "FetchDischargeTokens", "options": optsDesc, "locations": locs, "requests": reqDesc, "impl_new_discharges": ndis, "impl_err": errStr(ferr), "scheme": scheme},
+			Desc:       map[string]any{"op": "FetchDischargeTokens", "options": optsDesc, "locations": locs, "requests": reqDesc, "impl_new_discharges": ndis, "impl_err": errStr(ferr), "scheme": scheme, "shared_http_clients": sharedHTTP},
 			Class:      fmt.Sprintf("fetch/%dlocs-%dopts", nl, nopt),
 			Nontrivial: len(reqs) > 0,
 			OracleFail: oracle,
